@@ -2077,7 +2077,12 @@ class SourceCatalog:
         if self.isscalar:
             localbkg = localbkg[0]
         source_sum = np.array([np.sum(arr) for arr in self._data_values])
-        source_sum -= self.area.value * localbkg
+        # number of unmasked pixels of this catalog (the ``area`` property
+        # may come from the detection catalog, which can have another
+        # mask)
+        npix = np.array([np.count_nonzero(~mask)
+                         for mask in self._cutout_total_masks])
+        source_sum -= npix * localbkg
         if self._data_unit is not None:
             source_sum <<= self._data_unit
         return source_sum
